@@ -70,6 +70,11 @@ class Scanner:
         self.init = {}
         for l in self.state_vars:
             for d in self.du.defs.get(l, []):
+                if d.block not in loop and d.kind == "assign" and d.rv.kind == "agg" and d.rv.j.get("agg") == "adt" and not d.rv.operands():
+                    # a field-less enum used as scanner state (`let mut state = Scan::Structure;`)
+                    dv = self._variant_discr(d.rv.j.get("adt"), d.rv.j.get("variant"))
+                    if dv is not None:
+                        self.init[l] = ("enum", dv)
                 if d.block not in loop and d.kind == "assign" and d.rv.kind == "use":
                     o = d.rv.operands()[0]
                     if o.is_const():
@@ -83,6 +88,15 @@ class Scanner:
             if l not in self.init:
                 raise Unsupported("state variable %s has no constant initial value" % b.local_name(l))
         self.data_param = 3
+
+    def _variant_discr(self, adt, variant):
+        a = self.facts.adts.get(adt)
+        if not a:
+            return None
+        for v in a["variants"]:
+            if v["name"] == variant:
+                return v["discr"]
+        return None
 
     # ------------------------------------------------------------------ evaluation
     def _place_value(self, env, pl, cur, prev):
@@ -215,10 +229,16 @@ class Scanner:
                 raise Unsupported("loop body leaves the loop (early return) at bb%d" % bi)
             blk = b.blocks[bi]
             for st in blk.stmts:
+                if st.kind == "setdiscr" and st.place is not None and not st.place.proj:
+                    env[st.place.local] = ("enum", st.j.get("i"))
+                    continue
                 if st.kind != "assign":
                     continue
                 rv = st.rv
-                if rv.kind == "use":
+                if rv.kind == "discr":
+                    pv = self._place_value(env, rv.place(), cur, prev)
+                    v = ("int", pv[1]) if pv[0] == "enum" else TOP
+                elif rv.kind == "use":
                     v = self._operand(env, rv.operands()[0], cur, prev)
                 elif rv.kind in ("ref", "rawptr"):
                     pv = self._place_value(env, rv.place(), cur, prev)
@@ -248,6 +268,8 @@ class Scanner:
                         v = ("tuple", ops)
                     elif rv.j.get("adt", "").endswith("ops::Range"):
                         v = ("range", ops)
+                    elif rv.j.get("agg") == "adt" and not ops and self._variant_discr(rv.j.get("adt"), rv.j.get("variant")) is not None:
+                        v = ("enum", self._variant_discr(rv.j.get("adt"), rv.j.get("variant")))
                     else:
                         v = TOP
                 elif rv.kind == "cast":
